@@ -20,7 +20,7 @@ CHECKS = {
  'C05': ('path enumeration with three-valued evaluation of the combinators (list, argument list, pair, pattern); projection table of the value matchers; folding of the wildcard construction; role tables of the parser',
          'decides ONLY structural clauses: a list matches iff some alternative and no exclusion does; every item of an argument list needs some argument and no excluded item any (lists/arguments up to the unrolling bound); a pattern selects messages on / creating (.new) / destroying (.destroyed) its object, the bare form adds messages mentioning it; * is everything and ! nothing; which part of an argument / object / connection each value matcher is applied to; a word with * becomes the anchored escaped pattern with .* for *; which piece of `conn: obj.name(args)`, of `a, b ! c` and of `name=value` becomes which matcher, brackets recursing into the same sub-parser, every piece stripped of blanks. NOT decided: what matches() returns for a given expression and message (the property as a whole), soundness of simplify() beyond C12.6, the bracket/quote-aware splitter on arbitrary nesting, regular-expression semantics.'),
  'C06': ('scenario evaluation of the live-view guard, who-calls tables, transitive write sets',
-         'decides: recorded always and first, shown iff (no selection or this connection) and filter, one display route, once per arrival, filter/selection commands touch no record and display nothing, matches() pure. NOT decided: what matches() returns (C05).'),
+         'decides: recorded always and first, shown iff (no selection or this connection) and filter, one display route, once per arrival, filter/selection commands touch no record and display nothing, the filter object is never mutated in place, matches() pure; lifts C05 (what the filter selects) and the pass-through rule of C08.2 (a message lost to an error while it is resolved: open known finding, the same input as the C08 one).'),
  'C10': ('scenario evaluation (breakpoint guard, invoke_command, prompt loop), call-graph closures over the command registry, writer enumeration of flags',
          'decides: stop() returns the pause flag computed for this message, pause iff breakpoint matches (and selection), only resume resumes / quit quits, loop prompts while paused and not quitting. NOT decided: matches() result, GDB internals.'),
  'C11': ('effect closure of list_command; path enumeration of the scan with the returned list and the three counts folded per path; folding of list_command on argument shapes; cap scenarios',
